@@ -87,6 +87,8 @@ def _run_one(spec, tier, seed, replay=None):
     prop_failures = []       # (id, detail, input_line, obs_line)
 
     # 1. translator ------------------------------------------------------------
+    # regenerate the Gen*.v files of every imported group from the current tree first
+    notes.extend(C.translate_deps(group))
     if spec.get("translate"):
         try:
             tr = spec["translate"]()
@@ -136,6 +138,21 @@ def _run_one(spec, tier, seed, replay=None):
                     continue
                 axioms_used.update(a for a in ax if C.axiom_ok(a))
                 discharged += 1
+
+    # composed obligations living in another group (e.g. coq/e2e): a callable per tier returning
+    # (ok, total, discharged, failures, axioms); they count as obligations of this property
+    xo = spec.get("extra_obligations", {}).get(tier) if not replay else None
+    if xo and coq["ok"]:
+        try:
+            xok, xtotal, xdis, xfail, xax = xo()
+            obligations += xtotal
+            discharged += xdis
+            proof_failures.extend("composed obligation: " + f for f in xfail)
+            axioms_used.update(a for a in xax if C.axiom_ok(a))
+            notes.append("composed obligations (%s): %d/%d" % (spec.get("extra_obligations_name", "other group"), xdis, xtotal))
+            checker_cmd += " + " + spec.get("extra_obligations_cmd", "composed group build and audit")
+        except Exception as e:
+            proof_failures.append("composed obligations raised %r" % (e,))
 
     # thorough tier: independent re-check of the compiled property file with coqchk
     if coq["ok"] and tier == "thorough" and not replay and not spec.get("skip_coqchk"):
